@@ -30,6 +30,14 @@ var (
 	// re-election of an expired RFC 9520 failure probe. The limit belongs to
 	// one request cohort and must never create shared failure-cache state.
 	ErrFailureProbeLimit = errors.New("failure probe retry limit exceeded")
+
+	// ErrResolutionCapacity identifies a lookup this process shed because its
+	// own in-flight resolution capacity (global or per destination zone) was
+	// momentarily exhausted, before a single packet left. It describes local
+	// occupancy, not the question or its authorities: it must never create
+	// shared failure-cache state, and a caller that merely shared the shed
+	// lookup re-enters under its own context instead of inheriting the refusal.
+	ErrResolutionCapacity = errors.New("resolution capacity exceeded")
 )
 
 // ResolutionAttemptLimitError records the tuple rejected by the RFC 9520
@@ -412,6 +420,7 @@ func IsRequestLocalResolutionError(err error) bool {
 	return errors.Is(err, ErrRecursionWorkLimit) ||
 		errors.Is(err, ErrResolutionAttemptLimit) ||
 		errors.Is(err, ErrFailureProbeLimit) ||
+		errors.Is(err, ErrResolutionCapacity) ||
 		errors.Is(err, ErrMaxRecursion) ||
 		errors.Is(err, context.Canceled) ||
 		errors.Is(err, context.DeadlineExceeded)
